@@ -9,7 +9,7 @@ from collections import Counter
 import os
 
 NAMES = ("a", "b", "c", "d", "e")
-DEFAULT_HAZARDS = ("PATH_REUSE", "DIRMOVE_ISOLATED", "DIRMOVE_TOMB", "XSIDE")
+DEFAULT_HAZARDS = ("PATH_REUSE", "DIRMOVE_ISOLATED", "DIRMOVE_TOMB", "XSIDE", "STALE_PATHSTYLE")
 MAX_DEPTH = 3
 
 
@@ -158,6 +158,8 @@ class Window:
         self.dirmoves = []          # (side, old, new)
         self.nops = [0, 0]
         self.dirty = set()          # objects created or written in this window (create/mkdir/write/rename destinations)
+        self.dirty_side = [set(), set()]    # per side: objects created / written / renamed-to in this window
+        self.consumed = [set(), set()]      # per side: dirty objects at the time that side's event loop last ran in this window
         self.origin = [{}, {}]      # current path -> path the object had at the start of the window (renamed objects only)
 
 
@@ -174,6 +176,7 @@ class World:
         self.path_style = path_style
         self.retired = set()        # paths consumed by conflict gadgets: never touched again
         self.guard_retouch = False  # when set: no op may touch an object created/written earlier in this window
+        self.tomb_both = False      # C10: a delete leaves a tombstone on BOTH sides (a faulted engine delete may be half-recorded)
         self.crash_anywhere = False # C07 enum/batch: a crash may hit any window -> no folder rename when a side is path-style
         self.crash_mode = False     # C07: additionally no folder rename after a crash arm when a side is path-style
         self.strict_reuse = False   # when set: PATH_REUSE without the id/id same-type exception
@@ -246,6 +249,13 @@ class World:
                     for p in win.W[sd] | win.R[sd]:
                         if under(p, a[0]) or under(p, a[1]):
                             return "DIRMOVE_ISOLATED"
+        if "STALE_PATHSTYLE" in H and self.path_style[s] and win.consumed[s]:
+            # open finding KF-43: on a path-style side an object whose change the engine has already been told about
+            # (its side's event loop ran) but has not synced yet must not leave its path before the next quiet point
+            for p in vac:
+                for c in win.consumed[s]:
+                    if under(p, c):
+                        return "STALE_PATHSTYLE"
         if "DIRMOVE_TOMB" in H and op == "rename" and tree.is_dir(a[0]) and self.path_style[s]:
             if a[1] in self.ever_deleted[s]:
                 return "DIRMOVE_TOMB"
@@ -304,11 +314,15 @@ class World:
         win.nops[s] += 1
         if op in ("create", "mkdir", "write"):
             win.dirty.add(a[0])
+            win.dirty_side[s].add(a[0])
         elif op == "rename":
             win.dirty.add(a[1])
+            win.dirty_side[s].add(a[1])
         if op in ("delete", "rmtree"):
             # the index may still know a renamed-then-deleted object under the name it had when the window opened
             self.ever_deleted[s] |= vac | gone_origins
+            if self.tomb_both:
+                self.ever_deleted[1 - s] |= vac | gone_origins
             self.last_gone = vac | gone_origins
         if op == "rename" and Wpre:
             win.dirmoves.append((s, a[0], a[1]))
@@ -357,6 +371,12 @@ class World:
             if under(p, r) or under(r, p):
                 return False
         return True
+
+    def note_step(self, who):
+        """The generator tells the model which engine loop just ran (EL / ER / S)."""
+        if who in ("EL", "ER"):
+            sd = 0 if who == "EL" else 1
+            self.win.consumed[sd] |= self.win.dirty_side[sd]
 
     def settle(self):
         """Both sides are assumed equal to the merged tree after a quiet settle."""
